@@ -29,7 +29,7 @@ META = {
     "abstract_measure": "distinct (mode, api, distribution) triples",
     "gates": {"quick": {"seeded": 3000, "unseeded_pair": 1500, "choice_noreplace": 1000,
                         "multi_open": 3000, "mp_boundary": 1000, "fresh_interpreter": 8,
-                        "seeded_via_seed_method_zero": 20},
+                        "seeded_via_seed_method_zero": 20, "numpy_rng_wrapped_twice": 100},
               "thorough": {"seeded": 3000}},
     "anchors": ["dask/array/random.py"],
     "real": ["dask.array.random Generator / RandomState / module-level API, _spawn_bitgens, random_state_data",
@@ -258,8 +258,15 @@ def run_one(tape, cfg):
                     elif dt != str(v1.dtype) or hexbytes != v1.tobytes().hex():
                         out.violate("seeded_values_differ", f"{wl}: fresh interpreter values differ")
         elif mode == "unseeded_pair":
-            how = tape.draw(3, "how")
-            if how == 0:      # two separately created generators
+            how = tape.draw(4, "how")
+            if how == 3 and api != "gen":
+                how = 0
+            if how == 3:      # one unseeded numpy BitGenerator / Generator wrapped by two dask generators
+                npr = np.random.PCG64() if tape.chance(1, 2, "npbitgen") else np.random.default_rng()
+                out.probe("numpy_rng_wrapped_twice")
+                x = da.random.default_rng(npr).random(shape, chunks=chunks)
+                y = da.random.default_rng(npr).random(shape, chunks=chunks)
+            elif how == 0:    # two separately created generators
                 x = build(api, dist, shape, chunks, None)
                 y = build(api, dist, shape, chunks, None)
             elif how == 1:    # one unseeded generator, two calls
